@@ -8,7 +8,10 @@ package accum
 //   * the callback sequence is exactly the generator's ground truth (each block once, file order, the kept
 //     objects since the previous block as children, trailing kept objects as a final parentless group),
 //   * every delivered object's (Offset, SectionLength) reads back exactly its section from the file bytes,
-//   * contents are still right when they are read late inside a slow callback (no aliasing of pooled buffers).
+//   * contents are still right when they are read late inside a slow callback (no aliasing of pooled buffers),
+//   * every delivered payload is the bytes stored in the file at the object's position, also on CARs of several MiB
+//     with consumers that start after the reader is done, and a consumer that appends to `children` (as the CAR
+//     splitter does) neither sees its own slice change nor alters a later group (see c15_consumers_test.go).
 // The observations are written as a Coq case file checked against YF.C15_Check (model + groups_spec).
 
 import (
@@ -401,22 +404,24 @@ const (
 	vc15Instant = iota
 	vc15Slow
 	vc15Random
-	vc15Gated
+	vc15Gated    // the first callback is held until the reader has queued everything the queue can take (reader ahead)
+	vc15Lockstep // the reader gets the file group by group from the consumer (reader behind), see vc15GateReader
 )
 
-var vc15ModeNames = []string{"instant", "slow", "random", "gated"}
+var vc15ModeNames = []string{"instant", "slow", "random", "gated", "lockstep"}
 
 type vc15Run struct {
-	CarName string `json:"car"`
-	CarID   int    `json:"car_id"`
-	Flush   byte   `json:"flush_kind"`
-	Ignore  []int  `json:"ignore"`
-	Skip    int    `json:"skip"`
-	Mode    string `json:"callback"`
-	Procs   int    `json:"gomaxprocs"`
-	FromMem bool   `json:"from_memory"`
-	Kinds   string `json:"kinds,omitempty"`
-	Seed    uint64 `json:"seed"`
+	CarName  string `json:"car"`
+	CarID    int    `json:"car_id"`
+	Flush    byte   `json:"flush_kind"`
+	Ignore   []int  `json:"ignore"`
+	Skip     int    `json:"skip"`
+	Mode     string `json:"callback"`
+	Consumer string `json:"consumer"`
+	Procs    int    `json:"gomaxprocs"`
+	FromMem  bool   `json:"from_memory"`
+	Kinds    string `json:"kinds,omitempty"`
+	Seed     uint64 `json:"seed"`
 }
 
 type vc15Result struct {
@@ -430,6 +435,9 @@ type vc15Result struct {
 	hdrSize       uint64
 	retainedBad   int
 	callbacksLate int
+	gateTimeouts  int // the gated first callback gave up waiting for the reader (informational)
+	readerStalls  int // the lockstep reader stopped gating because nobody released it (informational)
+	lockstepWaits int // lockstep callbacks that did not see the next group queued within their bound (informational)
 }
 
 func (r *vc15Result) problem(sig, detail string) {
@@ -456,8 +464,10 @@ func vc15CheckObj(car *vc15Car, op *ObjectWithMetadata, res *vc15Result, where s
 	} else {
 		it.Idx = idx
 		g := car.objs[idx]
-		if !bytes.Equal(o.ObjectData, g.data) {
-			res.problem("wrong-content", fmt.Sprintf("%s: object #%d delivered with other payload bytes (len %d, expected %d)", where, idx, len(o.ObjectData), len(g.data)))
+		// the payload both consumers decode must be the bytes stored in the file at the object's position
+		if stored := vc15StoredPayload(car, idx); !bytes.Equal(o.ObjectData, stored) {
+			d := vc15FirstDiff(o.ObjectData, stored)
+			res.problem("payload-differs-from-file", fmt.Sprintf("%s: object #%d (cid %s, offset %d, section length %d) is delivered with a payload that is not the one stored in the file at that position: %d bytes delivered, %d stored, first difference at payload byte %d", where, idx, o.Cid, g.off, g.slen, len(o.ObjectData), len(stored), d))
 		}
 		if o.Offset != g.off {
 			res.problem("wrong-offset", fmt.Sprintf("%s: object #%d delivered with offset %d, it sits at %d", where, idx, o.Offset, g.off))
@@ -491,18 +501,38 @@ func vc15Finger(o *ObjectWithMetadata) vc15Fingerprint {
 	return f
 }
 
-func vc15RunOnce(car *vc15Car, flush byte, ign []byte, skip int, mode int, fromMem bool, drng *vh.Rng) *vc15Result {
+func vc15RunOnce(car *vc15Car, flush byte, ign []byte, skip int, opts vc15Opts, drng *vh.Rng) *vc15Result {
 	out := &vc15Result{problems: map[string]string{}}
-	vc15RunInto(out, car, flush, ign, skip, mode, fromMem, drng)
+	vc15RunInto(out, car, flush, ign, skip, opts, drng)
 	return out
 }
 
-func vc15RunInto(out *vc15Result, car *vc15Car, flush byte, ign []byte, skip int, mode int, fromMem bool, drng *vh.Rng) {
+// "observe" (default): objects that changed AFTER their callback returned are counted only (neither consumer keeps
+// them that long); "enforce": reported as `retained-object-changed-after-return`.
+func vc15RetainedEnforced() bool { return os.Getenv("VERIF_C15_RETAINED") == "enforce" }
+
+func vc15RunInto(out *vc15Result, car *vc15Car, flush byte, ign []byte, skip int, opts vc15Opts, drng *vh.Rng) {
 	res := &vc15Result{problems: map[string]string{}}
+	mode := opts.mode
+	exp := vc15Expected(car, flush, ign, skip)
+	nExpected := len(exp)
+	totalSends := 1 // hand-overs to the flusher: one per object of the flush kind and the final one
+	var ends []uint64
+	for i, o := range car.objs {
+		if i >= skip && o.kind == flush {
+			totalSends++
+			ends = append(ends, o.off+o.slen)
+		}
+	}
 	var rc io.ReadCloser
-	if fromMem {
+	var gate *vc15GateReader
+	switch {
+	case mode == vc15Lockstep:
+		gate = vc15NewGateReader(car.bytes, ends)
+		rc = gate
+	case opts.fromMem:
 		rc = io.NopCloser(bytes.NewReader(car.bytes))
-	} else {
+	default:
 		f, err := os.Open(car.path)
 		if err != nil {
 			panic("VERIF-HARNESS-BUG: " + err.Error())
@@ -521,7 +551,6 @@ func vc15RunInto(out *vc15Result, car *vc15Car, flush byte, ign []byte, skip int
 
 	var mu sync.Mutex // protects res.groups/problems when Run does not return (timeout path)
 	var inCallback, returned atomic.Int32
-	nExpected := len(vc15Expected(car, flush, ign, skip))
 	perGroup := 200 * time.Microsecond
 	if nExpected > 0 && time.Duration(nExpected)*perGroup > 12*time.Millisecond {
 		perGroup = 12 * time.Millisecond / time.Duration(nExpected)
@@ -531,8 +560,11 @@ func vc15RunInto(out *vc15Result, car *vc15Car, flush byte, ign []byte, skip int
 		children []ObjectWithMetadata
 		pf       vc15Fingerprint
 		cf       []vc15Fingerprint
+		family   []ObjectWithMetadata
+		famWant  []vc15Fingerprint
 	}
 	var retained []kept
+	appended := map[vc15AppKey]vc15Appended{} // what the splitter-style consumer appended to the slices it was given
 	var oa *ObjectAccumulator
 	first := true
 	ignKinds := make([]iplddecoders.Kind, len(ign))
@@ -553,6 +585,7 @@ func vc15RunInto(out *vc15Result, car *vc15Car, flush byte, ign []byte, skip int
 		if q := len(oa.flushQueue); q > res.maxQueue {
 			res.maxQueue = q
 		}
+		gi := len(res.groups)
 		// what is visible at the moment the callback starts
 		var pf vc15Fingerprint
 		if parent != nil {
@@ -561,6 +594,24 @@ func vc15RunInto(out *vc15Result, car *vc15Car, flush byte, ign []byte, skip int
 		cf := make([]vc15Fingerprint, len(children))
 		for i := range children {
 			cf[i] = vc15Finger(&children[i])
+		}
+		// the splitter builds the DAG of the block by appending to the slice it was given
+		var family []ObjectWithMetadata
+		var famWant []vc15Fingerprint
+		if opts.splitter {
+			family = children
+			famWant = append(make([]vc15Fingerprint, 0, len(cf)+4), cf...)
+			if parent != nil {
+				family = append(family, *parent)
+				famWant = append(famWant, pf)
+				appended[vc15KeyOf(parent)] = vc15Appended{gi, fmt.Sprintf("the block delivered as the parent of group %d", gi)}
+			}
+			for e, n := 0, drng.Intn(4); e < n; e++ {
+				s := vc15Sentinel(gi, e)
+				family = append(family, s)
+				famWant = append(famWant, vc15Finger(&s))
+				appended[vc15KeyOf(&s)] = vc15Appended{gi, fmt.Sprintf("extra element %d", e)}
+			}
 		}
 		switch mode {
 		case vc15Slow:
@@ -574,19 +625,48 @@ func vc15RunInto(out *vc15Result, car *vc15Car, flush byte, ign []byte, skip int
 				time.Sleep(time.Duration(drng.Intn(int(perGroup)*2 + 1)))
 			}
 		case vc15Gated:
-			if first { // hold the consumer until the producer has filled the queue (or 300 ms)
-				for i := 0; i < 3000 && len(oa.flushQueue) < cap(oa.flushQueue); i++ {
+			if first { // hold the consumer until the producer has queued everything the queue can take
+				target := totalSends - 1
+				if c := cap(oa.flushQueue); target > c {
+					target = c
+				}
+				last, lastChange, start := -1, time.Now(), time.Now()
+				for {
+					q := len(oa.flushQueue)
+					if q >= target {
+						break
+					}
+					now := time.Now()
+					if q != last {
+						last, lastChange = q, now
+					}
+					if now.Sub(lastChange) > 200*time.Millisecond || now.Sub(start) > 5*time.Second {
+						res.gateTimeouts++ // only less is exercised; the verdict does not depend on it
+						break
+					}
 					time.Sleep(100 * time.Microsecond)
 				}
-				time.Sleep(2 * time.Millisecond) // the producer is now blocked in its send
+				time.Sleep(2 * time.Millisecond) // the producer is now done or blocked in its send
 				if q := len(oa.flushQueue); q > res.maxQueue {
 					res.maxQueue = q
+				}
+			}
+		case vc15Lockstep:
+			// only now may the reader read the next group; wait (bounded) until it has handed it over
+			gate.releaseNext()
+			if parent != nil {
+				start := time.Now()
+				for len(oa.flushQueue) == 0 && !gate.free.Load() {
+					if time.Since(start) > 20*time.Millisecond {
+						res.lockstepWaits++
+						break
+					}
+					time.Sleep(20 * time.Microsecond)
 				}
 			}
 		}
 		first = false
 		// read everything only now, after the delay
-		gi := len(res.groups)
 		var g vc15Group
 		if parent != nil {
 			if vc15Finger(parent) != pf {
@@ -604,10 +684,26 @@ func vc15RunInto(out *vc15Result, car *vc15Car, flush byte, ign []byte, skip int
 				res.problem("content-changed-while-consuming", fmt.Sprintf("group %d: child %d changed while the callback was running", gi, i))
 			}
 			g.Children[i] = vc15CheckObj(car, &children[i], res, fmt.Sprintf("group %d child %d", gi, i))
+			if opts.splitter && gi < len(exp) && i < len(exp[gi].Children) && g.Children[i] != exp[gi].Children[i] {
+				// not the object stored there: is it something this consumer appended to the slice of an earlier group?
+				if a, ok := appended[vc15KeyOf(&children[i])]; ok && a.group < gi {
+					e := exp[gi].Children[i]
+					res.problem("children-altered-by-consumer-append", fmt.Sprintf("group %d: child %d is %s, which the consumer of group %d had appended to ITS children slice (append(children, *parent, ...), as cmd-car-split.go does); the file has object #%d (offset %d, section length %d) there and that object was never delivered", gi, i, a.what, a.group, e.Idx, e.Off, e.Slen))
+				}
+			}
+		}
+		// the slice the consumer built by appending must still hold what was delivered plus what it appended
+		for j := range family {
+			if j < len(famWant) {
+				if now := vc15Finger(&family[j]); now != famWant[j] {
+					res.problem("family-altered-under-consumer", fmt.Sprintf("group %d (%d children): element %d of family := append(children, *parent, ...) changed while the callback was still using it: appended/delivered as %s, now %s", gi, len(cf), j, vc15Describe(famWant[j]), vc15Describe(now)))
+					break
+				}
+			}
 		}
 		res.groups = append(res.groups, g)
 		if len(retained) < 3000 {
-			retained = append(retained, kept{parent, children, pf, cf})
+			retained = append(retained, kept{parent, children, pf, cf, family, famWant})
 		}
 		return nil
 	}
@@ -642,10 +738,13 @@ func vc15RunInto(out *vc15Result, car *vc15Car, flush byte, ign []byte, skip int
 	inFlightAtReturn := !res.timedOut && inCallback.Load() != 0
 	mu.Lock()
 	defer mu.Unlock()
+	if gate != nil {
+		res.readerStalls = int(gate.stalls.Load())
+	}
 	if inFlightAtReturn {
 		res.problem("run-returned-before-delivery-finished", "Run returned while a callback invocation was still running")
 	}
-	if !res.timedOut && !vc15GroupsEqual(res.groups, vc15Expected(car, flush, ign, skip)) {
+	if !res.timedOut && !vc15GroupsEqual(res.groups, exp) {
 		// something is missing at the moment Run returned: give late callbacks a moment to show up
 		mu.Unlock()
 		time.Sleep(30 * time.Millisecond)
@@ -661,22 +760,43 @@ func vc15RunInto(out *vc15Result, car *vc15Car, flush byte, ign []byte, skip int
 	fin := &snap
 	defer func() { *out = *fin }()
 	if !fin.timedOut {
-		// informational: are the values handed to the callback still intact after Run returned?
-		for _, k := range retained {
-			bad := false
-			if k.parent != nil && vc15Finger(k.parent) != k.pf {
-				bad = true
+		// are the values handed to the callback (fingerprints, payloads against the file, the consumer's family
+		// slices) still intact after Run returned? Informational unless VERIF_C15_RETAINED=enforce.
+		scratch := &vc15Result{problems: map[string]string{}}
+		for gi, k := range retained {
+			bad := ""
+			if k.parent != nil {
+				if vc15Finger(k.parent) != k.pf {
+					bad = "the parent changed"
+				}
+				vc15CheckObj(car, k.parent, scratch, fmt.Sprintf("group %d parent, after Run returned", gi))
 			}
 			if len(k.children) != len(k.cf) {
-				bad = true
+				bad = "the children slice changed length"
 			}
 			for i := range k.children {
 				if i < len(k.cf) && vc15Finger(&k.children[i]) != k.cf[i] {
-					bad = true
+					bad = fmt.Sprintf("child %d changed", i)
+				}
+				vc15CheckObj(car, &k.children[i], scratch, fmt.Sprintf("group %d child %d, after Run returned", gi, i))
+			}
+			for j := range k.family {
+				if j < len(k.famWant) && vc15Finger(&k.family[j]) != k.famWant[j] {
+					bad = fmt.Sprintf("element %d of the consumer's family slice changed", j)
 				}
 			}
-			if bad {
+			if bad == "" && len(scratch.problems) > 0 {
+				for _, d := range scratch.problems {
+					bad = d
+					break
+				}
+			}
+			scratch.problems = map[string]string{}
+			if bad != "" {
 				fin.retainedBad++
+				if vc15RetainedEnforced() {
+					fin.problem("retained-object-changed-after-return", fmt.Sprintf("group %d, looked at again after Run returned: %s", gi, bad))
+				}
 			}
 		}
 	}
@@ -826,8 +946,8 @@ func TestVerif_C15(t *testing.T) {
 	defer os.RemoveAll(dir)
 
 	rep := vh.NewReport("C15", "accum",
-		"generated CARv1 files x ignore sets x skip counts x callback {instant, slow, random delay, gated until the queue is full} x GOMAXPROCS {1,4,16}, "+
-			"half read from a file, half from memory; a run is non-trivial when it delivers >= 2 groups with >= 1 child overall; distinct by (car, flush kind, ignore set, skip, callback, GOMAXPROCS)")
+		"generated CARv1 files (incl. CARs of several MiB with payloads of 0.2..5 KiB) x ignore sets x skip counts x callback {instant, slow, random delay, gated until the reader has queued all the queue can take, lockstep = reader fed group by group by the consumer} x consumer {read-only, splitter-style: appends parent and extra elements to children} x GOMAXPROCS {1,4,16}, "+
+			"half read from a file, half from memory; every delivered payload is compared late with the bytes stored in the file; a run is non-trivial when it delivers >= 2 groups with >= 1 child overall; distinct by (car, flush kind, ignore set, skip, callback, consumer, GOMAXPROCS)")
 	cases := vh.NewCases("cases_c15", []string{"YF.C15_Accum", "YF.C15_Check"}, "case", "check")
 
 	// constants of the implementation, measured
@@ -863,6 +983,38 @@ func TestVerif_C15(t *testing.T) {
 	many := vc15Build(vc15ManyGroups(rng, nGroups), len(cars), rng, dir)
 	flushOf[many.id] = B
 	cars = append(cars, many)
+	// CARs larger than any plausible read buffer, with payloads of realistic size: one with fewer groups than the queue
+	// holds (a gated consumer starts after the reader is done), one with more (the reader blocks on the full queue)
+	payloadCars := map[int]bool{}
+	{
+		gFit := queueCap * 7 / 10
+		if gFit > 700 {
+			gFit = 700
+		}
+		if gFit < 40 {
+			gFit = 40
+		}
+		gOver := queueCap*2 + 300
+		if gOver > 2300 {
+			gOver = 2300
+		}
+		specs := []vc15Spec{
+			vc15PayloadSpec(rng, "payload-groups<queue", gFit, 4, 500, 5500),  // about 6 MiB
+			vc15PayloadSpec(rng, "payload-groups>queue", gOver, 1, 300, 2400), // about 4.5 MiB
+		}
+		if thorough {
+			specs = append(specs,
+				vc15PayloadSpec(rng, "payload-large-groups<queue", gFit+gFit/4, 8, 2000, 14000), // about 35 MiB
+				vc15PayloadSpec(rng, "payload-large-groups>queue", gOver+300, 2, 1000, 6000))    // about 18 MiB
+		}
+		for _, sp := range specs {
+			c := vc15Build(sp, len(cars), rng, dir)
+			flushOf[c.id] = B
+			payloadCars[c.id] = true
+			cars = append(cars, c)
+			rep.CountN("payload-car-MiB", len(c.bytes)>>20)
+		}
+	}
 	for i := 0; i < nRandom; i++ {
 		fk := B
 		if rng.Intn(5) == 0 {
@@ -894,10 +1046,11 @@ func TestVerif_C15(t *testing.T) {
 
 	// plan: (car, ignore set, skip)
 	type combo struct {
-		car  *vc15Car
-		ign  []byte
-		skip int
-		key  string
+		car   *vc15Car
+		ign   []byte
+		skip  int
+		key   string
+		noCoq bool // observation not written to the Coq case file (large CARs: one combo each is)
 	}
 	var combos []combo
 	subset := func(mask int) []byte {
@@ -910,13 +1063,21 @@ func TestVerif_C15(t *testing.T) {
 		return s
 	}
 	add := func(c *vc15Car, ign []byte, skip int) {
-		combos = append(combos, combo{c, ign, skip, fmt.Sprintf("%d|%v|%d", c.id, ign, skip)})
+		combos = append(combos, combo{car: c, ign: ign, skip: skip, key: fmt.Sprintf("%d|%v|%d", c.id, ign, skip)})
 	}
 	nextMask := 0
 	for _, c := range cars {
 		big := len(c.objs) > 2000
 		add(c, nil, 0)
 		add(c, []byte{byte(iplddecoders.KindEpoch), byte(iplddecoders.KindSubset)}, 0) // as cmd-car-split does
+		if payloadCars[c.id] {
+			combos[len(combos)-1].noCoq = true
+			if c.spec.Name != "payload-groups<queue" && (!thorough || c.spec.Name != "payload-groups>queue") {
+				combos[len(combos)-2].noCoq = true // the Coq checker sees one of the large CARs (thorough tier: two)
+			}
+			add(c, []byte{byte(iplddecoders.KindEntry), byte(iplddecoders.KindRewards)}, 0) // as the address indexer does
+			combos[len(combos)-1].noCoq = true
+		}
 		if big {
 			continue
 		}
@@ -946,6 +1107,9 @@ func TestVerif_C15(t *testing.T) {
 	type obsKey struct{ key, obs string }
 	written := map[obsKey]bool{}
 	record := func(cb combo, fk byte, res *vc15Result) {
+		if cb.noCoq {
+			return
+		}
 		obs := vc15CoqGroups(res.groups)
 		k := obsKey{cb.key + fmt.Sprintf("|%d", fk), obs}
 		if written[k] {
@@ -964,16 +1128,17 @@ func TestVerif_C15(t *testing.T) {
 	}
 
 	runs := 0
-	evaluate := func(cb combo, fk byte, mode, procs int, fromMem bool) {
+	evaluateWith := func(cb combo, fk byte, mode, procs int, fromMem, splitter bool) {
 		drng := vh.NewRng(rng.U64())
-		res := vc15RunOnce(cb.car, fk, cb.ign, cb.skip, mode, fromMem, drng)
+		opts := vc15Opts{mode: mode, fromMem: fromMem, splitter: splitter}
+		res := vc15RunOnce(cb.car, fk, cb.ign, cb.skip, opts, drng)
 		runs++
 		ignInts := make([]int, len(cb.ign))
 		for i, x := range cb.ign {
 			ignInts[i] = int(x)
 		}
 		info := vc15Run{CarName: cb.car.spec.Name, CarID: cb.car.id, Flush: fk, Ignore: ignInts, Skip: cb.skip,
-			Mode: vc15ModeNames[mode], Procs: procs, FromMem: fromMem, Seed: vh.Seed()}
+			Mode: vc15ModeNames[mode], Consumer: opts.consumer(), Procs: procs, FromMem: fromMem, Seed: vh.Seed()}
 		if len(cb.car.objs) <= 400 {
 			info.Kinds = vc15KindsString(cb.car)
 		}
@@ -982,8 +1147,28 @@ func TestVerif_C15(t *testing.T) {
 		for _, g := range exp {
 			nchildren += len(g.Children)
 		}
-		rep.Case(fmt.Sprintf("%s|%d|%s|%d", cb.key, fk, vc15ModeNames[mode], procs), len(exp) >= 2 && nchildren >= 1)
+		rep.Case(fmt.Sprintf("%s|%d|%s|%v|%d", cb.key, fk, vc15ModeNames[mode], splitter, procs), len(exp) >= 2 && nchildren >= 1)
 		rep.Count("callback=" + vc15ModeNames[mode])
+		if splitter {
+			rep.Count("consumer=splitter-style")
+		} else {
+			rep.Count("consumer=read-only")
+		}
+		if payloadCars[cb.car.id] {
+			rep.Count("runs-on-multi-MiB-car")
+			if mode == vc15Gated {
+				rep.Count("runs-on-multi-MiB-car-gated")
+			}
+		}
+		if res.gateTimeouts > 0 {
+			rep.Count("gated-wait-gave-up(info)")
+		}
+		if res.readerStalls > 0 {
+			rep.Count("lockstep-reader-stopped-gating(info)")
+		}
+		if res.lockstepWaits > 0 {
+			rep.CountN("lockstep-next-group-not-seen-in-time(info)", res.lockstepWaits)
+		}
 		rep.Count(fmt.Sprintf("gomaxprocs=%d", procs))
 		if cb.skip > 0 {
 			rep.Count("with-skip")
@@ -1022,6 +1207,7 @@ func TestVerif_C15(t *testing.T) {
 		sort.Strings(sigs)
 		for _, s := range sigs {
 			rep.Fail(s, res.problems[s], info)
+			rep.Count(fmt.Sprintf("failure-at:%s|callback=%s|consumer=%s|multi-MiB-car=%v|gomaxprocs=%d", s, vc15ModeNames[mode], opts.consumer(), payloadCars[cb.car.id], procs))
 		}
 		if res.retainedBad > 0 {
 			rep.Count("retained-values-changed-after-return(info)")
@@ -1031,14 +1217,40 @@ func TestVerif_C15(t *testing.T) {
 			rep.Sample(map[string]interface{}{"run": info, "header_bytes": cb.car.hdrLen, "delivered": res.groups})
 		}
 	}
+	evaluate := func(cb combo, fk byte, mode, procs int, fromMem bool) {
+		evaluateWith(cb, fk, mode, procs, fromMem, false)
+	}
 
 	prev := runtime.GOMAXPROCS(0)
 	defer runtime.GOMAXPROCS(prev)
-	for _, procs := range []int{1, 4, 16} {
+	for pi, procs := range []int{1, 4, 16} {
 		runtime.GOMAXPROCS(procs)
+		payloadSlot := 0
 		for ci, cb := range combos {
 			fk := flushOf[cb.car.id]
 			big := len(cb.car.objs) > 2000
+			if payloadCars[cb.car.id] {
+				// CARs of several MiB. Consumers that start late: every payload is compared with the file only after the
+				// reader is done (or blocked on the full queue), i.e. after it went through all its read buffers.
+				evaluate(cb, fk, vc15Gated, procs, (ci+pi)%2 == 1)
+				// and the other callbacks / the consumer that appends: all of them in the thorough tier (two for the CARs of
+				// tens of MiB, the race detector makes those runs slow), in the quick tier one per (combo, GOMAXPROCS),
+				// rotated so that every car sees every one of them
+				type alt struct {
+					mode     int
+					splitter bool
+				}
+				alts := []alt{{vc15Instant, false}, {vc15Random, false}, {vc15Slow, false}, {vc15Gated, true}, {vc15Lockstep, true}, {vc15Random, true}}
+				largest := len(cb.car.bytes) > 12<<20 // thorough tier only: two of the alternatives per (combo, GOMAXPROCS)
+				for ai, a := range alts {
+					pick := (payloadSlot + 2*pi) % len(alts)
+					if (thorough && !largest) || ai == pick || (thorough && ai == (pick+3)%len(alts)) {
+						evaluateWith(cb, fk, a.mode, procs, a.mode == vc15Lockstep || (ci+ai)%2 == 0, a.splitter)
+					}
+				}
+				payloadSlot++
+				continue
+			}
 			for _, mode := range []int{vc15Instant, vc15Slow, vc15Random} {
 				if big && mode == vc15Slow && !thorough && procs != 4 {
 					continue
@@ -1048,17 +1260,35 @@ func TestVerif_C15(t *testing.T) {
 			if cb.car == many && cb.ign == nil {
 				evaluate(cb, fk, vc15Gated, procs, false)
 			}
+			// a consumer that appends to the children slice, as the CAR splitter does: reader ahead (gated), reader
+			// behind (lockstep), and free running. Quick tier: cars with thousands of objects get one of the three per
+			// (combo, GOMAXPROCS), the small ones the two forced schedules always and a free-running one every other time.
+			// Thorough tier (16 x more cars, race detector): the large cars all three, the small ones one of the three.
+			third := []int{vc15Random, vc15Instant, vc15Slow}[(ci+2*pi+1)%3]
+			for si, mode := range []int{vc15Gated, vc15Lockstep, third} {
+				switch {
+				case thorough && big:
+				case thorough && si != (ci+pi)%3:
+					continue
+				case thorough:
+				case big && si != (ci+pi)%3:
+					continue
+				case !big && si == 2 && (ci+pi)%2 == 1:
+					continue
+				}
+				evaluateWith(cb, fk, mode, procs, mode == vc15Lockstep || (ci+pi+si)%2 == 0, true)
+			}
 		}
 		// every ignore set over the seven kinds, on the car that holds every kind
 		if allkinds != nil && (procs == 4 || thorough) {
 			for mask := 0; mask < 128; mask++ {
-				cb := combo{allkinds, subset(mask), 0, fmt.Sprintf("%d|%v|%d", allkinds.id, subset(mask), 0)}
+				cb := combo{car: allkinds, ign: subset(mask), key: fmt.Sprintf("%d|%v|%d", allkinds.id, subset(mask), 0)}
 				evaluate(cb, B, []int{vc15Instant, vc15Random}[mask%2], procs, mask%3 == 0)
 				rep.Count("ignore-set-sweep")
 			}
 			// and every flush kind
 			for fk := 0; fk < 7; fk++ {
-				cb := combo{allkinds, []byte{byte((fk + 1) % 7), byte(fk)}, fk % 3, fmt.Sprintf("%d|%v|%d", allkinds.id, []byte{byte((fk + 1) % 7), byte(fk)}, fk%3)}
+				cb := combo{car: allkinds, ign: []byte{byte((fk + 1) % 7), byte(fk)}, skip: fk % 3, key: fmt.Sprintf("%d|%v|%d", allkinds.id, []byte{byte((fk + 1) % 7), byte(fk)}, fk%3)}
 				evaluate(cb, byte(fk), vc15Random, procs, false)
 				rep.Count("flush-kind-sweep")
 			}
